@@ -53,7 +53,7 @@ Lemma join_gen_inv leb prune inputs j :
                   ++ source_logs 1 (m0 :: rest)
     /\ (j_date j = m_date m0 /\ j_time j = m_time m0
         /\ j_sample j = m_sample m0 /\ j_run j = JOIN_RUN_INDEX
-        /\ j_count j = event_count (j_cols j))
+        /\ j_count j = event_count m0 (j_cols j))
     /\ (2 <= length inputs)%nat
     /\ forallb wf_datetime inputs = true.
 Proof.
@@ -131,6 +131,7 @@ Lemma fdata_spec m ti f old d :
 Proof.
   unfold fdata, data_spec, getcol.
   destruct (lookup_col f (m_cols m)) as [col|]; [|discriminate].
+  destruct col as [|c0 col]; [discriminate|].
   destruct (kind f =? 1); [now intros [= <-]|].
   destruct (kind f =? 2).
   { destruct (round_half_even (ti * m_rate m) 64 <? 0);
@@ -287,13 +288,15 @@ Qed.
 
 Definition fdata_ok (m : meas) (ti f : Z) : Prop :=
   lookup_col f (m_cols m) <> None
+  /\ lookup_col f (m_cols m) <> Some []
   /\ 0 <= round_half_even (ti * m_rate m) 64.
 
 Lemma fdata_ok_Ok m ti f old :
   fdata_ok m ti f -> exists d, fdata m ti f old = Ok d.
 Proof.
-  intros [Hl Ho]. unfold fdata.
+  intros [Hl [Hne Ho]]. unfold fdata.
   destruct (lookup_col f (m_cols m)) as [col|]; [|contradiction].
+  destruct col as [|c0 col]; [contradiction|].
   destruct (kind f =? 1); [eauto|].
   destruct (kind f =? 2).
   { destruct (round_half_even (ti * m_rate m) 64 <? 0) eqn:E; [lia|eauto]. }
@@ -352,7 +355,7 @@ Lemma wf_all_datetime inputs :
   Forall wf_meas inputs -> forallb wf_datetime inputs = true.
 Proof.
   intros H. apply forallb_forall. intros m Hm. rewrite Forall_forall in H.
-  destruct (H m Hm) as [_ [_ [_ [_ Hd]]]]. exact Hd.
+  destruct (H m Hm) as [_ [_ [_ [_ [Hd _]]]]]. exact Hd.
 Qed.
 
 (* whatever the inputs (well-formed, at least two), in whatever order: the
@@ -390,10 +393,11 @@ Proof.
     assert (Hinn : In f (m_innate m0)).
     { eapply Permutation_in; [apply py_sorted_perm|exact Hf0]. }
     rewrite Forall_forall in Hwf'.
-    destruct (Hwf' m Hm) as [_ [Hia [Hcols Hrate]]].
-    split.
+    destruct (Hwf' m Hm) as [_ [Hia [Hcols [Hrate [_ Hnonempty]]]]].
+    split; [|split].
     + apply Hcols. destruct Hm as [<-|Hm]; [now apply Hia|].
       rewrite forallb_forall in Hall. apply mem_Z_In. now apply Hall.
+    + apply Hnonempty.
     + apply round_half_even_nonneg; [|lia].
       assert (acq_time8 m0 <= acq_time8 m).
       { destruct Hm as [<-|Hm]; [lia|].
@@ -466,60 +470,6 @@ Proof.
     { apply not_true_iff_false. intros Hall. rewrite forallb_forall in Hall.
       rewrite (Hall m Hm) in Hd. discriminate. }
     rewrite Hf. reflexivity.
-Qed.
-
-(* conversely a ValueError has no other cause *)
-Theorem join_value_error_only_if inputs :
-  join_fixed inputs = Err EValue ->
-  (length inputs < 2)%nat \/ (exists m, In m inputs /\ wf_datetime m = false).
-Proof.
-  unfold join_fixed, join_gen. cbv zeta.
-  destruct (length inputs <? 2)%nat eqn:Elen.
-  { intros _. left. now apply Nat.ltb_lt. }
-  destruct (forallb wf_datetime inputs) eqn:Ewf; cbn [negb].
-  - fold (tagged_leb leb_num). fold (sorted_gen leb_num inputs).
-    pose proof (sorted_gen_perm leb_num inputs) as Hperm.
-    destruct (map snd (sorted_gen leb_num inputs)) as [|m0 rest] eqn:E.
-    + apply Permutation_nil in Hperm. subst inputs. discriminate.
-    + destruct (prune_all _ _ rest) as [feats warn].
-      destruct (join_files _ _ _) as [cols|e] eqn:Ej; [discriminate|].
-      intros [= ->]. exfalso.
-      (* neither fdata nor append_all nor join_files produce EValue *)
-      clear - Ej.
-      assert (Hfd : forall m ti f old, fdata m ti f old <> Err EValue).
-      { intros m ti f old. unfold fdata.
-        destruct (lookup_col f (m_cols m)); [|discriminate].
-        destruct (kind f =? 1); [discriminate|].
-        destruct (kind f =? 2);
-          [destruct (round_half_even (ti * m_rate m) 64 <? 0); discriminate|].
-        destruct (kind f =? 3); [discriminate|].
-        destruct (kind f =? 4); discriminate. }
-      assert (Hap : forall m ti st, append_all m ti st <> Err EValue).
-      { intros m ti st. induction st as [|[f old] r IH]; cbn [append_all];
-          [discriminate|].
-        destruct (fdata m ti f old) as [d|e] eqn:Ef.
-        - destruct (append_all m ti r) as [r'|e]; [discriminate|].
-          intros [= ->]. now apply IH.
-        - intros [= ->]. exact (Hfd _ _ _ _ Ef). }
-      revert Ej. generalize (map (fun f : Z => (f, @nil Z)) (sort_dedup feats)).
-      generalize (m0 :: rest). intros ms.
-      induction ms as [|m r IH]; intros st; cbn [join_files]; [discriminate|].
-      destruct (append_all m (acq_time8 m - acq_time8 m0) st) as [st'|e] eqn:Ea.
-      * apply IH.
-      * intros [= ->]. exact (Hap _ _ _ Ea).
-  - intros _. right. apply not_true_iff_false in Ewf.
-    destruct (forallb wf_datetime inputs) eqn:E2; [contradiction|].
-    clear Ewf. induction inputs as [|m r IH]; cbn [forallb] in E2; [discriminate|].
-    apply andb_false_iff in E2. destruct E2 as [E2|E2].
-    + exists m. split; [now left|exact E2].
-    + assert (Hl : (length r <? 2)%nat = false \/ True) by auto.
-      clear Hl.
-      assert (exists m', In m' r /\ wf_datetime m' = false) as [m' [Hm' Hd']].
-      { clear IH Elen. induction r as [|x r IHr]; cbn [forallb] in E2; [discriminate|].
-        apply andb_false_iff in E2. destruct E2 as [E2|E2].
-        - exists x. split; [now left|exact E2].
-        - destruct (IHr E2) as [m' [Hm' Hd']]. exists m'. split; [now right|exact Hd']. }
-      exists m'. split; [now right|exact Hd'].
 Qed.
 
 (* ---- "restricted to the features available in every input" ------------------ *)
@@ -597,7 +547,8 @@ Definition wf_measb (m : meas) : bool :=
   && forallb (fun f => match lookup_col f (m_cols m) with
                        | Some _ => true | None => false end) (m_avail m)
   && (0 <=? m_rate m)
-  && wf_datetime m.
+  && wf_datetime m
+  && forallb (fun fc => negb (Nat.eqb (length (snd fc)) 0)) (m_cols m).
 
 Lemma nodupb_NoDup l : nodupb l = true -> NoDup l.
 Proof.
@@ -607,17 +558,31 @@ Proof.
   rewrite Hin in Hx. discriminate.
 Qed.
 
+Lemma lookup_col_In f cols c :
+  lookup_col f cols = Some c -> exists g, In (g, c) cols.
+Proof.
+  induction cols as [|[g c'] r IH]; cbn [lookup_col]; [discriminate|].
+  destruct (f =? g).
+  - intros [= ->]. exists g. now left.
+  - intros H. destruct (IH H) as [g' Hg']. exists g'. now right.
+Qed.
+
 Lemma wf_measb_sound m : wf_measb m = true -> wf_meas m.
 Proof.
   unfold wf_measb, wf_meas. intros H.
+  apply andb_true_iff in H. destruct H as [H Hne].
   apply andb_true_iff in H. destruct H as [H Hdt].
   apply andb_true_iff in H. destruct H as [H Hr].
   apply andb_true_iff in H. destruct H as [H Hc].
   apply andb_true_iff in H. destruct H as [Hn Ha].
-  split; [now apply nodupb_NoDup|]. split; [|split; [|split; [lia|exact Hdt]]].
+  split; [now apply nodupb_NoDup|].
+  split; [|split; [|split; [lia|split; [exact Hdt|]]]].
   - intros f Hf. rewrite forallb_forall in Ha. now apply mem_Z_In, Ha.
   - intros f Hf. rewrite forallb_forall in Hc. specialize (Hc f Hf).
     destruct (lookup_col f (m_cols m)); [discriminate|discriminate].
+  - intros f Hf. rewrite forallb_forall in Hne.
+    destruct (lookup_col_In _ _ _ Hf) as [g Hg].
+    specialize (Hne _ Hg). discriminate.
 Qed.
 
 Lemma wf_all_sound ms : forallb wf_measb ms = true -> Forall wf_meas ms.
